@@ -233,3 +233,25 @@ def monitor_syspath(case, obs):
                     out.append(fail('sys-path-added', f'existing directory {nm!r} was not added to sys.path',
                                     'sys-path-not-added'))
     return out
+
+
+def monitor_import(case, obs):
+    """get_module layer: a look-up made while another thread is still creating (importing) the item
+    waits and receives the finished item; the item is created once."""
+    out = []
+    for t, o in enumerate(obs['outcomes']):
+        via = case['vias'][t]
+        if o[0] == 'raise':
+            out.append(fail('waits-for-creation',
+                            f'thread {t} looked the module up via {via} while thread 0 (via {case["vias"][0]}, '
+                            f'no_cache={case["nc"]}) was still importing it and got {o[1]}: {o[2]} instead of '
+                            f'waiting for the finished item', 'half-made-item'))
+        elif o[0] == 'ok' and not o[1]:
+            out.append(fail('waits-for-creation', f'thread {t} (via {via}) received something that is not the '
+                                                  f'finished module\'s attribute', 'half-made-item'))
+        elif o[0] == 'hung':
+            out.append(fail('completes', f'thread {t} (via {via}) never returned', 'lookup-never-completes'))
+    if obs['status'] == 'ok' and obs['body_runs'] != [0]:
+        out.append(fail('created-at-most-once', f'module body executed by threads {obs["body_runs"]!r}',
+                        'creator-invoked-twice'))
+    return out
